@@ -252,7 +252,36 @@ static int op_mpq_roundtrip(int argc, tok_t *a, out_t *o) {
   mpq_clear(q); mpq_clear(r); return 0;
 }
 
+/* compact forms for very large operands: x = b^n + d is built here (mpz_ui_pow_ui), so the op line stays short.
+     mpz_sizeinbase_pow b n d     -> mpz_sizeinbase (x, b)
+     mpz_get_str_pow_len b n d    -> strlen of mpz_get_str (NULL, b, x), mpz_sizeinbase (x, b); the allocator ledger
+                                     reports a block overrun by itself (`!alloc:overrun...`) */
+static void pow_operand(mpz_ptr x, tok_t *a) {
+  mpz_ui_pow_ui(x, tok_ulong(&a[0]), tok_ulong(&a[1]));
+  long d = tok_long(&a[2]);
+  if (d >= 0) mpz_add_ui(x, x, (unsigned long) d); else mpz_sub_ui(x, x, (unsigned long) -d);
+}
+static int op_mpz_sizeinbase_pow(int argc, tok_t *a, out_t *o) {
+  NEED(argc == 3 && a[0].kind == T_NUM && a[1].kind == T_NUM && a[2].kind == T_NUM && !a[0].neg && !a[1].neg);
+  unsigned long b = tok_ulong(&a[0]); NEED(b >= 2 && b <= 62 && a[1].n <= 1 && a[2].n <= 1);
+  mpz_t x; mpz_init(x); pow_operand(x, a);
+  out_ulong(o, mpz_sizeinbase(x, (int) b));
+  mpz_clear(x); return 0;
+}
+static int op_mpz_get_str_pow_len(int argc, tok_t *a, out_t *o) {
+  NEED(argc == 3 && a[0].kind == T_NUM && a[1].kind == T_NUM && a[2].kind == T_NUM && !a[0].neg && !a[1].neg);
+  unsigned long b = tok_ulong(&a[0]); NEED(b >= 2 && b <= 62 && a[1].n <= 1 && a[2].n <= 1);
+  mpz_t x; mpz_init(x); pow_operand(x, a);
+  char *r = mpz_get_str(NULL, (int) b, x);
+  size_t len = strlen(r);
+  out_ulong(o, len); out_ulong(o, mpz_sizeinbase(x, (int) b));
+  void (*ff)(void *, size_t); mp_get_memory_functions(NULL, NULL, &ff);
+  ff(r, len + 1);
+  mpz_clear(x); return 0;
+}
+
 const opdef_t ops_radix[] = {
+  {"mpz_sizeinbase_pow", op_mpz_sizeinbase_pow}, {"mpz_get_str_pow_len", op_mpz_get_str_pow_len},
   {"mpz_roundtrip", op_mpz_roundtrip}, {"mpz_io_roundtrip", op_mpz_io_roundtrip}, {"mpq_roundtrip", op_mpq_roundtrip},
   {"mpz_get_str", op_mpz_get_str}, {"mpz_set_str", op_mpz_set_str}, {"mpz_init_set_str", op_mpz_init_set_str},
   {"mpz_sizeinbase", op_mpz_sizeinbase}, {"mpn_get_str", op_mpn_get_str},
